@@ -299,6 +299,40 @@ func c02Concurrent(c *vlib.Ctx) {
 			}
 			c.Count("first_sight_concurrent_decodes", G*24)
 		}
+		// (5) a packet holding a layer of the caller's own type whose number was never registered (registration is only
+		// needed for decoding by number): rendering it reads the layer type registry, which readers must not write
+		{
+			nums := []gopacket.LayerType{gopacket.LayerType(1200 + (round*16+c.Batch)%600), gopacket.LayerType(5000000 + round*16 + c.Batch)}
+			for _, num := range nums {
+				dec := gopacket.DecodeFunc(func(data []byte, pb gopacket.PacketBuilder) error {
+					pb.AddLayer(&c02OwnLayer{t: num, b: data})
+					return nil
+				})
+				payload := r.Bytes(r.Range(1, 40))
+				p := gopacket.NewPacket(payload, dec, gopacket.DecodeOptions{})
+				p.Layers()
+				R := r.Range(3, 6)
+				ans := make([]string, R)
+				var wg5 sync.WaitGroup
+				for g := 0; g < R; g++ {
+					wg5.Add(1)
+					go func(g int) {
+						defer wg5.Done()
+						vlib.Guard(func() {
+							ans[g] = num.String() + "|" + p.String() + "|" + gopacket.LayerString(p.Layers()[0]) + "|" + fmt.Sprint(p.Layer(num) != nil, p.LayerClass(num) != nil)
+						})
+					}(g)
+				}
+				wg5.Wait()
+				for g := 1; g < R; g++ {
+					if ans[g] != ans[0] {
+						c.Violation("concurrent-readers-disagree:own-layer-type", "goroutines rendering one packet with a layer of an unregistered type number got different answers", map[string]any{"layer_type_number": int64(num)})
+						break
+					}
+				}
+				c.Count("own_layer_type_packets_read_concurrently", 1)
+			}
+		}
 		// (4) one eager packet, several readers including checksum verification and rendering
 		for k := 0; k < 6; k++ {
 			it := items[r.Intn(len(items))]
@@ -372,3 +406,13 @@ func c02Concurrent(c *vlib.Ctx) {
 		c.End()
 	}
 }
+
+// c02OwnLayer is a layer type of the caller's own, with a type number that is not in the registry.
+type c02OwnLayer struct {
+	t gopacket.LayerType
+	b []byte
+}
+
+func (l *c02OwnLayer) LayerType() gopacket.LayerType { return l.t }
+func (l *c02OwnLayer) LayerContents() []byte         { return l.b }
+func (l *c02OwnLayer) LayerPayload() []byte          { return nil }
